@@ -94,8 +94,9 @@ Definition chk_last (l : bytes) : Z * nat :=
   let d := decode l in
   if (snd d =? length l)%nat then d else (RuneError, 1%nat).
 
-Definition decode_last (s : bytes) : Z * nat :=
-  match rev s with
+(* the scan, on the reversed string (last byte first) *)
+Definition decode_last_rev (rs : bytes) : Z * nat :=
+  match rs with
   | [] => (RuneError, 0%nat)
   | b0 :: r =>
     if b0 <? 128 then (b0, 1%nat)
@@ -114,6 +115,8 @@ Definition decode_last (s : bytes) : Z * nat :=
       end
     end
   end.
+
+Definition decode_last (s : bytes) : Z * nat := decode_last_rev (rev_append s []).
 
 (* ------------------------------------------------------------------ *)
 (* Basic facts *)
